@@ -428,9 +428,15 @@ def r02d(prog: Program, chk: Check) -> None:
     site = "pyanalyze/name_check_visitor.py"
     try:
         table = f.table("COMPARATOR_TO_OPERATOR")
+    except CannotFold as e:
+        raise AnchorError(f"cannot fold COMPARATOR_TO_OPERATOR: {e}")
+    try:
         rev = f.table("AST_TO_REVERSE")
     except CannotFold as e:
-        raise AnchorError(f"cannot fold comparator tables: {e}")
+        # derived from COMPARATOR_TO_OPERATOR by comprehension: an inconsistent base
+        # table makes the derivation fail (at import time, too)
+        rev = {}
+        chk.ob("R02.d", "name_check_visitor::AST_TO_REVERSE::derivable", False, site, f"AST_TO_REVERSE cannot be derived from COMPARATOR_TO_OPERATOR: {e}")
     rows = {k.last: v for k, v in table.items() if isinstance(k, Sym)}
     for cls, (pos, neg) in COMPLEMENT.items():
         row = rows.get(cls)
